@@ -118,7 +118,7 @@ def gen(rng, tier):
             for word in itertools.product(base, repeat=n):
                 if n == depth and keep < 1.0 and rng.random() > keep:
                     continue
-                if tier == "quick" and n == depth - 1 and rng.random() > 0.5:
+                if tier == "quick" and n == depth - 1 and rng.random() > 0.35:
                     continue
                 if tier != "quick" and n == depth - 1 and rng.random() > 0.3:
                     continue
@@ -139,14 +139,14 @@ def gen(rng, tier):
             for word in itertools.product("AM210xzy", repeat=n):
                 if "x" not in word and "z" not in word:
                     continue
-                keep3 = {4: 0.08, 5: 0.005} if tier == "quick" else {5: 0.1, 6: 0.005}
+                keep3 = {4: 0.04, 5: 0.003} if tier == "quick" else {5: 0.1, 6: 0.005}
                 if n in keep3 and rng.random() > keep3[n]:
                     continue
                 cases.append(history3(word, c0))
     for _ in range(500 if tier == "quick" else 10000):
         cases.append(forward_scenario(rng))
     # random longer programs (arbitrary callbacks incl. returned Deferreds, 1-4 Deferreds, all cancellers)
-    for _ in range(1200 if tier == "quick" else 10000):
+    for _ in range(800 if tier == "quick" else 10000):
         nd = rng.randrange(1, 5)
         w = {"add": 3, "cb": 3, "eb": 2, "cancel": 3}   # no pause/unpause: independent of the C01 finding F1
         cases.append(K.rand_program(rng, nd, rng.randrange(3, 16), weights=w))
@@ -158,7 +158,7 @@ def gen(rng, tier):
     for _ in range(300 if tier == "quick" else 8000):
         cases.append(K.rand_program(rng, rng.randrange(2, 5), rng.randrange(4, 16), weights=wp))
     # callbacks that run kernel operations, incl. cancel() and late results, with all canceller kinds
-    for _ in range(500 if tier == "quick" else 8000):
+    for _ in range(350 if tier == "quick" else 8000):
         cases.append(K.rand_script_program(rng, rng.randrange(1, 5), rng.randrange(2, 14), cancellers=True, pauses=True))
     # how a failure is handed to errback must not matter: bare errback() inside an except block, errback(None),
     # errback(Failure) instead of errback(exc)
@@ -391,14 +391,14 @@ SPEC = Spec(
     nontrivial=lambda c, o: any(t in o for t in ("A", "S", "K", "EC")),
     histogram=histogram,
     describe=lambda c: {"canc": c["canc"], "ops": c["ops"][:12], "debug": bool(c.get("debug"))},
-    rule="every history of length <= 5 (quick; length 4 sampled 50%, length 5 sampled 6%) / <= 6 (thorough; length 5 sampled 30%, length 6 sampled 3%) over {outer.callback, "
+    rule="every history of length <= 5 (quick; length 4 sampled 35%, length 5 sampled 6%) / <= 6 (thorough; length 5 sampled 30%, length 6 sampled 3%) over {outer.callback, "
          "outer.errback, outer.cancel, add a callback returning the unfired inner Deferred, fire the inner Deferred} "
          "x 7 (quick) / 25 (thorough) canceller pairs from {none, does nothing, fires callback, fires errback, "
          "raises}^2, each Deferred first given a pass-through probe callback; every history of length <= 3 (4) over "
-         "that alphabet + {inner.cancel, inner.errback}; every history with a cancel of length <= 3 (8% of 4, 0.5% of 5; thorough <= 4, 10% of 5, 0.5% of 6) over the "
+         "that alphabet + {inner.cancel, inner.errback}; every history with a cancel of length <= 3 (4% of 4, 0.3% of 5; thorough <= 4, 10% of 5, 0.5% of 6) over the "
          "3-level alphabet {outer returns middle, middle returns pending, fire each, cancel each} x 3 (5) cancellers of "
          "the pending Deferred; 500 (10 000) forwarding scenarios (2-5 levels of fired-and-waiting Deferreds, cancel at "
-         "any level, late results); 15% (10%) of the cases containing an errback once more with the failure handed over as bare errback() inside an except block / errback(None) / errback(Failure); 500 (12 000) scenarios cancelling fired-but-paused Deferreds and chainDeferred targets, 300 (8 000) random programs with pause/unpause and cancel; 6% (4%) of all cases once more with defer.setDebugging flipped on/off in the middle; 8% (5%) of all these cases once more under defer.setDebugging(True); 1 200 (10 000) random programs of 3-15 operations over the "
+         "any level, late results); 15% (10%) of the cases containing an errback once more with the failure handed over as bare errback() inside an except block / errback(None) / errback(Failure); 500 (12 000) scenarios cancelling fired-but-paused Deferreds and chainDeferred targets, 300 (8 000) random programs with pause/unpause and cancel; 6% (4%) of all cases once more with defer.setDebugging flipped on/off in the middle; 8% (5%) of all these cases once more under defer.setDebugging(True); 800 (10 000) random programs of 3-15 operations over the "
          "kernel alphabet without pause/unpause on 1-4 Deferreds.  non-trivial = an AlreadyCalledError, a swallowed result, a "
          "canceller call or a CancelledError occurs; distinct by (case, observation)",
     trusted=["hand-written kernel model coq/Lib/DeferredK.v (tied by this correspondence run only)",
